@@ -3,6 +3,7 @@ from typing import Optional
 
 from reactivestreams.publisher import Publisher
 from reactivestreams.subscriber import Subscriber
+from rsocket.frame import MAX_REQUEST_N
 from rsocket.frame_builders import to_request_channel_frame
 from rsocket.handlers.interfaces import Requester
 from rsocket.handlers.request_cahnnel_common import RequestChannelCommon
@@ -19,6 +20,7 @@ class RequestChannelRequester(RequestChannelCommon, Requester):
                  sending_done: Optional[asyncio.Event] = None):
         super().__init__(socket, publisher, sending_done)
         self._payload = payload
+        self._requested = False
 
     def setup(self):
         super().setup()
@@ -32,9 +34,35 @@ class RequestChannelRequester(RequestChannelCommon, Requester):
                                      fragment_size_bytes=self.socket.get_fragment_size_bytes())
         )
 
+    def request(self, n: int):
+        if not self._requested:
+            # asked for from on_subscribe: the request frame, which has not been written yet, carries this credit
+            if n > 0:
+                self.initial_request_n(min(self._initial_request_n + n, MAX_REQUEST_N))
+
+            return
+
+        super().request(n)
+
+    def cancel(self):
+        if not self._requested:
+            # a channel the peer has never seen is not cancelled, only released
+            if self.subscriber is not None and self.subscriber.subscription is not None:
+                self.subscriber.subscription.cancel()
+
+            self.mark_completed_and_finish(received=True, sent=True)
+            return
+
+        super().cancel()
+
     def subscribe(self, subscriber: Subscriber):
         self.setup()
         super().subscribe(subscriber)
+
+        if self._received_complete and self._sent_complete:
+            return  # cancelled from on_subscribe: the channel is never opened
+
+        self._requested = True
         self._send_channel_request(self._payload)
 
         if self._publisher is None:
